@@ -1,9 +1,17 @@
 // Package atomic replaces sync/atomic in the scheduling build (overlay only).
 // Go's atomics are sequentially consistent: every store releases, every load
-// acquires, read-modify-write does both.
+// acquires, read-modify-write does both. Every operation is a scheduling point.
 package atomic
 
-import "filippo.io/edwards25519/vsched"
+import (
+	"unsafe"
+
+	"filippo.io/edwards25519/vsched"
+)
+
+type number interface {
+	~int32 | ~int64 | ~uint32 | ~uint64 | ~uintptr
+}
 
 type word[T comparable] struct {
 	v  T
@@ -19,6 +27,7 @@ func (w *word[T]) store(kind string, v T) {
 	vsched.Point("atomic-store", kind)
 	vsched.Release(&w.vc)
 	w.v = v
+	vsched.Point("after-release", kind)
 }
 func (w *word[T]) swap(kind string, v T) T {
 	vsched.Point("atomic-swap", kind)
@@ -26,6 +35,7 @@ func (w *word[T]) swap(kind string, v T) T {
 	vsched.Release(&w.vc)
 	o := w.v
 	w.v = v
+	vsched.Point("after-release", kind)
 	return o
 }
 func (w *word[T]) cas(kind string, old, new T) bool {
@@ -36,21 +46,20 @@ func (w *word[T]) cas(kind string, old, new T) bool {
 	}
 	vsched.Release(&w.vc)
 	w.v = new
+	vsched.Point("after-release", kind)
 	return true
 }
 
-type Uint32 struct{ w word[uint32] }
-
-func (x *Uint32) Load() uint32                    { return x.w.load("uint32") }
-func (x *Uint32) Store(v uint32)                  { x.w.store("uint32", v) }
-func (x *Uint32) Swap(v uint32) uint32            { return x.w.swap("uint32", v) }
-func (x *Uint32) CompareAndSwap(o, n uint32) bool { return x.w.cas("uint32", o, n) }
-func (x *Uint32) Add(d uint32) uint32 {
-	vsched.Point("atomic-add", "uint32")
-	vsched.Acquire(&x.w.vc)
-	vsched.Release(&x.w.vc)
-	x.w.v += d
-	return x.w.v
+// rmw applies f atomically and returns (old, new).
+func rmw[T number](w *word[T], kind string, f func(T) T) (T, T) {
+	vsched.Point("atomic-rmw", kind)
+	vsched.Acquire(&w.vc)
+	vsched.Release(&w.vc)
+	o := w.v
+	w.v = f(o)
+	n := w.v
+	vsched.Point("after-release", kind)
+	return o, n
 }
 
 type Int32 struct{ w word[int32] }
@@ -60,24 +69,85 @@ func (x *Int32) Store(v int32)                  { x.w.store("int32", v) }
 func (x *Int32) Swap(v int32) int32             { return x.w.swap("int32", v) }
 func (x *Int32) CompareAndSwap(o, n int32) bool { return x.w.cas("int32", o, n) }
 func (x *Int32) Add(d int32) int32 {
-	vsched.Point("atomic-add", "int32")
-	vsched.Acquire(&x.w.vc)
-	vsched.Release(&x.w.vc)
-	x.w.v += d
-	return x.w.v
+	_, n := rmw(&x.w, "int32", func(v int32) int32 { return v + d })
+	return n
+}
+func (x *Int32) And(m int32) int32 {
+	o, _ := rmw(&x.w, "int32", func(v int32) int32 { return v & m })
+	return o
+}
+func (x *Int32) Or(m int32) int32 {
+	o, _ := rmw(&x.w, "int32", func(v int32) int32 { return v | m })
+	return o
+}
+
+type Int64 struct{ w word[int64] }
+
+func (x *Int64) Load() int64                    { return x.w.load("int64") }
+func (x *Int64) Store(v int64)                  { x.w.store("int64", v) }
+func (x *Int64) Swap(v int64) int64             { return x.w.swap("int64", v) }
+func (x *Int64) CompareAndSwap(o, n int64) bool { return x.w.cas("int64", o, n) }
+func (x *Int64) Add(d int64) int64 {
+	_, n := rmw(&x.w, "int64", func(v int64) int64 { return v + d })
+	return n
+}
+func (x *Int64) And(m int64) int64 {
+	o, _ := rmw(&x.w, "int64", func(v int64) int64 { return v & m })
+	return o
+}
+func (x *Int64) Or(m int64) int64 {
+	o, _ := rmw(&x.w, "int64", func(v int64) int64 { return v | m })
+	return o
+}
+
+type Uint32 struct{ w word[uint32] }
+
+func (x *Uint32) Load() uint32                    { return x.w.load("uint32") }
+func (x *Uint32) Store(v uint32)                  { x.w.store("uint32", v) }
+func (x *Uint32) Swap(v uint32) uint32            { return x.w.swap("uint32", v) }
+func (x *Uint32) CompareAndSwap(o, n uint32) bool { return x.w.cas("uint32", o, n) }
+func (x *Uint32) Add(d uint32) uint32 {
+	_, n := rmw(&x.w, "uint32", func(v uint32) uint32 { return v + d })
+	return n
+}
+func (x *Uint32) And(m uint32) uint32 {
+	o, _ := rmw(&x.w, "uint32", func(v uint32) uint32 { return v & m })
+	return o
+}
+func (x *Uint32) Or(m uint32) uint32 {
+	o, _ := rmw(&x.w, "uint32", func(v uint32) uint32 { return v | m })
+	return o
 }
 
 type Uint64 struct{ w word[uint64] }
 
 func (x *Uint64) Load() uint64                    { return x.w.load("uint64") }
 func (x *Uint64) Store(v uint64)                  { x.w.store("uint64", v) }
+func (x *Uint64) Swap(v uint64) uint64            { return x.w.swap("uint64", v) }
 func (x *Uint64) CompareAndSwap(o, n uint64) bool { return x.w.cas("uint64", o, n) }
+func (x *Uint64) Add(d uint64) uint64 {
+	_, n := rmw(&x.w, "uint64", func(v uint64) uint64 { return v + d })
+	return n
+}
+func (x *Uint64) And(m uint64) uint64 {
+	o, _ := rmw(&x.w, "uint64", func(v uint64) uint64 { return v & m })
+	return o
+}
+func (x *Uint64) Or(m uint64) uint64 {
+	o, _ := rmw(&x.w, "uint64", func(v uint64) uint64 { return v | m })
+	return o
+}
 
-type Int64 struct{ w word[int64] }
+type Uintptr struct{ w word[uintptr] }
 
-func (x *Int64) Load() int64                    { return x.w.load("int64") }
-func (x *Int64) Store(v int64)                  { x.w.store("int64", v) }
-func (x *Int64) CompareAndSwap(o, n int64) bool { return x.w.cas("int64", o, n) }
+func (x *Uintptr) Load() uintptr                    { return x.w.load("uintptr") }
+func (x *Uintptr) Store(v uintptr)                  { x.w.store("uintptr", v) }
+func (x *Uintptr) Swap(v uintptr) uintptr           { return x.w.swap("uintptr", v) }
+func (x *Uintptr) CompareAndSwap(o, n uintptr) bool { return x.w.cas("uintptr", o, n) }
+func (x *Uintptr) Add(d uintptr) uintptr {
+	_, n := rmw(&x.w, "uintptr", func(v uintptr) uintptr { return v + d })
+	return n
+}
 
 type Bool struct{ w word[bool] }
 
@@ -86,23 +156,39 @@ func (x *Bool) Store(v bool)                  { x.w.store("bool", v) }
 func (x *Bool) Swap(v bool) bool              { return x.w.swap("bool", v) }
 func (x *Bool) CompareAndSwap(o, n bool) bool { return x.w.cas("bool", o, n) }
 
-type Pointer[T any] struct {
-	v  *T
+type Pointer[T any] struct{ w word[*T] }
+
+func (x *Pointer[T]) Load() *T                    { return x.w.load("pointer") }
+func (x *Pointer[T]) Store(v *T)                  { x.w.store("pointer", v) }
+func (x *Pointer[T]) Swap(v *T) *T                { return x.w.swap("pointer", v) }
+func (x *Pointer[T]) CompareAndSwap(o, n *T) bool { return x.w.cas("pointer", o, n) }
+
+// Value holds an arbitrary value (comparable dynamic types for CompareAndSwap).
+type Value struct {
+	v  any
 	vc vsched.VC
 }
 
-func (x *Pointer[T]) Load() *T {
-	vsched.Point("atomic-load", "pointer")
+func (x *Value) Load() any {
+	vsched.Point("atomic-load", "value")
 	vsched.Acquire(&x.vc)
 	return x.v
 }
-func (x *Pointer[T]) Store(v *T) {
-	vsched.Point("atomic-store", "pointer")
+func (x *Value) Store(v any) {
+	vsched.Point("atomic-store", "value")
 	vsched.Release(&x.vc)
 	x.v = v
 }
-func (x *Pointer[T]) CompareAndSwap(o, n *T) bool {
-	vsched.Point("atomic-cas", "pointer")
+func (x *Value) Swap(v any) any {
+	vsched.Point("atomic-swap", "value")
+	vsched.Acquire(&x.vc)
+	vsched.Release(&x.vc)
+	o := x.v
+	x.v = v
+	return o
+}
+func (x *Value) CompareAndSwap(o, n any) bool {
+	vsched.Point("atomic-cas", "value")
 	vsched.Acquire(&x.vc)
 	if x.v != o {
 		return false
@@ -112,23 +198,31 @@ func (x *Pointer[T]) CompareAndSwap(o, n *T) bool {
 	return true
 }
 
-// Function-style API on plain words: no per-word clock is available, so a
-// single global clock orders them (coarser: may hide races between unrelated
+// Function-style API on plain words: no per-word clock is available, so one
+// global clock orders them (coarser: may hide a race between unrelated
 // atomics, never invents one).
 var globalVC vsched.VC
 
-func LoadUint32(p *uint32) uint32 {
-	vsched.Point("atomic-load", "uint32")
+func fload[T any](p *T, kind string) T {
+	vsched.Point("atomic-load", kind)
 	vsched.Acquire(&globalVC)
 	return *p
 }
-func StoreUint32(p *uint32, v uint32) {
-	vsched.Point("atomic-store", "uint32")
+func fstore[T any](p *T, v T, kind string) {
+	vsched.Point("atomic-store", kind)
 	vsched.Release(&globalVC)
 	*p = v
 }
-func CompareAndSwapUint32(p *uint32, o, n uint32) bool {
-	vsched.Point("atomic-cas", "uint32")
+func fswap[T any](p *T, v T, kind string) T {
+	vsched.Point("atomic-swap", kind)
+	vsched.Acquire(&globalVC)
+	vsched.Release(&globalVC)
+	o := *p
+	*p = v
+	return o
+}
+func fcas[T comparable](p *T, o, n T, kind string) bool {
+	vsched.Point("atomic-cas", kind)
 	vsched.Acquire(&globalVC)
 	if *p != o {
 		return false
@@ -137,40 +231,48 @@ func CompareAndSwapUint32(p *uint32, o, n uint32) bool {
 	*p = n
 	return true
 }
-func AddUint32(p *uint32, d uint32) uint32 {
-	vsched.Point("atomic-add", "uint32")
+func fadd[T number](p *T, d T, kind string) T {
+	vsched.Point("atomic-rmw", kind)
 	vsched.Acquire(&globalVC)
 	vsched.Release(&globalVC)
 	*p += d
 	return *p
 }
-func LoadInt32(p *int32) int32 {
-	vsched.Point("atomic-load", "int32")
-	vsched.Acquire(&globalVC)
-	return *p
+
+func LoadInt32(p *int32) int32       { return fload(p, "int32") }
+func LoadInt64(p *int64) int64       { return fload(p, "int64") }
+func LoadUint32(p *uint32) uint32    { return fload(p, "uint32") }
+func LoadUint64(p *uint64) uint64    { return fload(p, "uint64") }
+func LoadUintptr(p *uintptr) uintptr { return fload(p, "uintptr") }
+func LoadPointer(p *unsafe.Pointer) unsafe.Pointer {
+	return fload(p, "pointer")
 }
-func StoreInt32(p *int32, v int32) {
-	vsched.Point("atomic-store", "int32")
-	vsched.Release(&globalVC)
-	*p = v
+func StoreInt32(p *int32, v int32)       { fstore(p, v, "int32") }
+func StoreInt64(p *int64, v int64)       { fstore(p, v, "int64") }
+func StoreUint32(p *uint32, v uint32)    { fstore(p, v, "uint32") }
+func StoreUint64(p *uint64, v uint64)    { fstore(p, v, "uint64") }
+func StoreUintptr(p *uintptr, v uintptr) { fstore(p, v, "uintptr") }
+func StorePointer(p *unsafe.Pointer, v unsafe.Pointer) {
+	fstore(p, v, "pointer")
 }
-func CompareAndSwapInt32(p *int32, o, n int32) bool {
-	vsched.Point("atomic-cas", "int32")
-	vsched.Acquire(&globalVC)
-	if *p != o {
-		return false
-	}
-	vsched.Release(&globalVC)
-	*p = n
-	return true
+func SwapInt32(p *int32, v int32) int32         { return fswap(p, v, "int32") }
+func SwapInt64(p *int64, v int64) int64         { return fswap(p, v, "int64") }
+func SwapUint32(p *uint32, v uint32) uint32     { return fswap(p, v, "uint32") }
+func SwapUint64(p *uint64, v uint64) uint64     { return fswap(p, v, "uint64") }
+func SwapUintptr(p *uintptr, v uintptr) uintptr { return fswap(p, v, "uintptr") }
+func SwapPointer(p *unsafe.Pointer, v unsafe.Pointer) unsafe.Pointer {
+	return fswap(p, v, "pointer")
 }
-func LoadUint64(p *uint64) uint64 {
-	vsched.Point("atomic-load", "uint64")
-	vsched.Acquire(&globalVC)
-	return *p
+func CompareAndSwapInt32(p *int32, o, n int32) bool       { return fcas(p, o, n, "int32") }
+func CompareAndSwapInt64(p *int64, o, n int64) bool       { return fcas(p, o, n, "int64") }
+func CompareAndSwapUint32(p *uint32, o, n uint32) bool    { return fcas(p, o, n, "uint32") }
+func CompareAndSwapUint64(p *uint64, o, n uint64) bool    { return fcas(p, o, n, "uint64") }
+func CompareAndSwapUintptr(p *uintptr, o, n uintptr) bool { return fcas(p, o, n, "uintptr") }
+func CompareAndSwapPointer(p *unsafe.Pointer, o, n unsafe.Pointer) bool {
+	return fcas(p, o, n, "pointer")
 }
-func StoreUint64(p *uint64, v uint64) {
-	vsched.Point("atomic-store", "uint64")
-	vsched.Release(&globalVC)
-	*p = v
-}
+func AddInt32(p *int32, d int32) int32         { return fadd(p, d, "int32") }
+func AddInt64(p *int64, d int64) int64         { return fadd(p, d, "int64") }
+func AddUint32(p *uint32, d uint32) uint32     { return fadd(p, d, "uint32") }
+func AddUint64(p *uint64, d uint64) uint64     { return fadd(p, d, "uint64") }
+func AddUintptr(p *uintptr, d uintptr) uintptr { return fadd(p, d, "uintptr") }
